@@ -119,6 +119,11 @@ class MedianStoppingRule(TrialScheduler):
             )
             return SchedulerDecision.STOP
 
+    def on_trial_error(self, trial: Trial):
+        # The wrapped scheduler (and its searcher) need to know about failed
+        # trials, e.g. in order not to suggest their configurations again
+        self.scheduler.on_trial_error(trial)
+
     def grace_condition(self, time_step: float) -> bool:
         """
         :param time_step: Value :code:`result[self.resource_attr]`
